@@ -185,10 +185,19 @@ def run_c06(tier):
                       "which address replaces which is decided by PrefixMap's clauses on the aligned <<token, replacement>> pairs",
                       "TLC and the code-point projection are trusted"]
     cases = []
-    for mode, maxlen, wide in (("strings", 5 if thorough else 3, thorough), ("v4", 0, thorough), ("v6", 0, thorough)):
-        cs = gen_cases(ck, mode, maxlen, wide)
-        ck.notes["cases_" + mode] = len(cs)
-        cases += [("".join(chr(c) for c in x["s"]), x) for x in cs]
+    import concurrent.futures
+    modes = (("strings", 5 if thorough else 3, thorough), ("v4", 0, thorough), ("v6", 0, thorough))
+    with concurrent.futures.ThreadPoolExecutor(max_workers=3) as ex:
+        for (mode, maxlen, wide), cs in zip(modes, ex.map(lambda m: gen_cases(ck, *m), modes)):
+            ck.notes["cases_" + mode] = len(cs)
+            cases += [("".join(chr(c) for c in x["s"]), x) for x in cs]
+    if not thorough:
+        # quick: every string <= 3, and a seed-dependent third of the candidate lines (thorough runs all of them)
+        rq = rng(pid, "quick-sample")
+        short = [c for c in cases if len(c[0]) <= 3]
+        rest = [c for c in cases if len(c[0]) > 3]
+        cases = short + rq.sample(rest, min(len(rest), 7000))
+        ck.notes["quick_sampled_cases"] = len(cases)
     lines = [c[0] for c in cases] + EXTRA_LINES
     ndc = sum(1 for c in cases if c[1].get("dc"))
     ck.notes["dont_care_lines"] = ndc
@@ -204,15 +213,15 @@ def run_c06(tier):
         meta += m
     # the same lines through FileAnonymizer.anonymize_io (whole pipeline, only the address stages on)
     r = rng(pid, "io")
-    sub = r.sample(lines, min(len(lines), 6000 if thorough else 1500)) + EXTRA_LINES
+    sub = r.sample(lines, min(len(lines), 6000 if thorough else 1000)) + EXTRA_LINES
     t, m = line_traces(Cfg("other salt", ps4=8, ps6=8), sub, via="io")
     traces += t
     meta += m
     # one family at a time
-    t, m = line_traces(Cfg("TESTSALT", on6=False), r.sample(lines, min(len(lines), 1500)) + EXTRA_LINES)
+    t, m = line_traces(Cfg("TESTSALT", on6=False), r.sample(lines, min(len(lines), 1500 if thorough else 600)) + EXTRA_LINES)
     traces += t
     meta += m
-    t, m = line_traces(Cfg("TESTSALT", on4=False), r.sample(lines, min(len(lines), 1500)) + EXTRA_LINES)
+    t, m = line_traces(Cfg("TESTSALT", on4=False), r.sample(lines, min(len(lines), 1500 if thorough else 600)) + EXTRA_LINES)
     traces += t
     meta += m
     judge(ck, pid, traces, meta, "text")
